@@ -38,6 +38,10 @@ pub struct PropDef {
     pub level: &'static str,
 }
 
+fn bin_dir() -> String {
+    std::env::var("VERIF_FROZEN").map(|d| format!("{d}/bin")).unwrap_or_else(|_| "/verif/bin".into())
+}
+
 fn decisions_hash(res: &SimResult) -> u64 {
     let mut s = String::new();
     for st in &res.out.steps {
@@ -228,10 +232,10 @@ fn spawn_worker(def: &PropDef, cli: &Cli, k: usize, stride: usize, count: usize,
     c.arg("worker").arg(def.id).args(["--seed", &cli.seed.to_string(), "--tier", &cli.tier, "--start", &k.to_string(), "--stride", &stride.to_string(), "--count", &count.to_string(), "--wall", &wall.to_string(), "--scratch", &format!("{scratch}/run")]);
     c.args(extra);
     c.env_clear()
-        .env("PATH", "/verif/bin:/usr/bin:/bin")
+        .env("PATH", format!("{}:/usr/bin:/bin", bin_dir()))
         .env("HOME", format!("{scratch}/home"))
         .env("TMPDIR", format!("{scratch}/tmp"))
-        .env("LD_PRELOAD", "/verif/bin/libsimshim.so")
+        .env("LD_PRELOAD", format!("{}/libsimshim.so", bin_dir()))
         .env("SIMSHIM_EXE", "lspsim")
         .env("SIMSHIM_SEED", "11")
         .env("SIM_LIVE", format!("{scratch}/live"))
@@ -406,7 +410,7 @@ fn replay(def: &PropDef, cli: &Cli, path: &str, base: &str) -> i32 {
         std::fs::create_dir_all(format!("{scratch}/tmp")).ok();
         let mut c = Command::new(exe);
         c.arg(def.id.to_lowercase()).args(["--replay", path, "--inproc", "--scratch", &format!("{scratch}/run")]);
-        c.env_clear().env("PATH", "/verif/bin:/usr/bin:/bin").env("HOME", format!("{scratch}/home")).env("TMPDIR", format!("{scratch}/tmp")).env("LD_PRELOAD", "/verif/bin/libsimshim.so").env("SIMSHIM_EXE", "lspsim").env("SIMSHIM_SEED", "11").env("SIM_LIVE", format!("{scratch}/live"));
+        c.env_clear().env("PATH", format!("{}:/usr/bin:/bin", bin_dir())).env("HOME", format!("{scratch}/home")).env("TMPDIR", format!("{scratch}/tmp")).env("LD_PRELOAD", format!("{}/libsimshim.so", bin_dir())).env("SIMSHIM_EXE", "lspsim").env("SIMSHIM_SEED", "11").env("SIM_LIVE", format!("{scratch}/live"));
         let mut child = c.spawn().unwrap_or_else(|e| harness_error(&format!("spawn: {e}")));
         std::fs::write(format!("{scratch}/live"), format!("{}\n", child.id())).ok();
         let st = child.wait().expect("wait");
